@@ -313,10 +313,15 @@ func stackUnsafe() bool {
 	return false
 }
 
-// SetPlan installs the park plan of the run.
+// SetPlan installs the park plan of the run. Occurrences are counted from now on: the
+// hits of a point before the plan was installed (session creation) do not use them up.
 func (k *Kernel) SetPlan(plan []ParkSpec) {
 	k.mu.Lock()
-	k.plan = plan
+	k.plan = make([]ParkSpec, len(plan))
+	for i, ps := range plan {
+		ps.Nth += k.pcount[ps.Point]
+		k.plan[i] = ps
+	}
 	k.mu.Unlock()
 }
 
